@@ -32,6 +32,8 @@ EXPLANATION = (
 )
 TECHNIQUE += '; recognition of precompiled fnmatch.translate patterns'
 EXPLANATION += ' R1 recognises patterns precompiled with re.compile(fnmatch.translate(p)) and requires .match/.fullmatch (translate anchors the end only).'
+TECHNIQUE += "; finite-domain evaluation of the selection routine against a registry modelled from the modules' PATTERNS"
+EXPLANATION += " R1's decision table is evaluated: _select_format_module is interpreted on several hundred (file name, operation, explicit format) combinations built from every registered pattern (plain, inside a directory whose name matches a pattern, with prefix / suffix, upper-cased), with FORMAT_MODULES modelled from the modules' own PATTERNS and entry points; the result must be the documented module or FileFormatError.  The structural part of R1 keeps the effect discipline (no I/O in the selector) and the place of the selection in the API functions."
 TRUSTED = ["CPython ast parser", "pkgutil.iter_modules yields modules in sorted name order", "fnmatch glob semantics (* ? [seq])"]
 
 OPS = ("load_one", "load_many", "dump_one", "dump_many")
@@ -128,85 +130,8 @@ def run(ctx):
     sel = prog.func("iodata.api._select_format_module")
     cfg = cfg_of(sel)
     pfile, pattr, pfmt = sel.posparams[0], sel.posparams[1], sel.posparams[2]
-    # branch on fmt is None
-    none_ifs = [st for st in walk_stmts(sel.body) if isinstance(st, ast.If) and isinstance(st.test, ast.Compare) and isinstance(st.test.left, ast.Name) and st.test.left.id == pfmt and isinstance(st.test.comparators[0], ast.Constant) and st.test.comparators[0].value is None]
-    fn_calls = [cs for cs in sel.calls if cs.external in ("fnmatch.fnmatch", "fnmatch.fnmatchcase")]
-    # the same decision through precompiled patterns: <re.compile(fnmatch.translate(p))>.match(name); translate() anchors
-    # the end only, so .match/.fullmatch are equivalent to fnmatch and .search/.findall are not
-    import types as _types
-    for n in sel.own_nodes():
-        if isinstance(n, ast.Call) and isinstance(n.func, ast.Attribute) and n.func.attr in ("match", "fullmatch", "search", "findall", "finditer") and len(n.args) == 1 and _is_translated_regex(prog, sel, n.func.value):
-            fn_calls.append(_types.SimpleNamespace(node=n, external="re.Pattern." + n.func.attr))
-            if n.func.attr in ("match", "fullmatch"):
-                ctx.ok("R1", f"precompiled fnmatch.translate patterns are applied with .{n.func.attr} (anchored at both ends)", f"{sel.module.relpath}:{n.lineno}")
-            else:
-                ctx.violate("R1", f"precompiled fnmatch.translate patterns are applied with .{n.func.attr}: translate() anchors only the end, so a pattern without a leading `*` matches in the middle of a name", sel, n)
-    if len(none_ifs) != 1 or not fn_calls:
-        ctx.violate("R1", "cannot find the `fmt is None` dispatch / fnmatch call in the selection routine", sel, sel.node, construct="selection shape")
-    else:
-        d = none_ifs[0]
-        auto_branch = d.body if isinstance(d.test.ops[0], ast.Is) else d.orelse
-        inside = {id(n) for s in auto_branch for n in ast.walk(s)}
-        for cs in fn_calls:
-            if id(cs.node) in inside:
-                ctx.ok("R1", "pattern matching happens only when no explicit format is given", f"{sel.module.relpath}:{cs.node.lineno}")
-            else:
-                ctx.violate("R1", "pattern matching is reachable although an explicit format was given (explicit format no longer always wins)", sel, cs.node)
-            # first argument is the base name
-            a0 = deref(sel, cs.node.args[0]) if cs.node.args else None
-            while isinstance(a0, ast.Call) and (prog.resolve_expr(sel, sel.module, a0.func) or ("", ""))[1] in ("os.path.normcase", "builtins.str") and len(a0.args) == 1:
-                a0 = deref(sel, a0.args[0])
-            okb = isinstance(a0, ast.Call) and (prog.resolve_expr(sel, sel.module, a0.func) or ("", ""))[1] == "os.path.basename" and isinstance(a0.args[0], ast.Name) and a0.args[0].id == pfile
-            if okb:
-                ctx.ok("R1", "patterns are matched against os.path.basename(filename)", f"{sel.module.relpath}:{cs.node.lineno}")
-            else:
-                ctx.violate("R1", f"patterns are matched against `{src_of(cs.node.args[0]) if cs.node.args else '?'}`, not the base name (directories containing pattern text would match)", sel, cs.node)
-        # the registry loop is left with a module only when a pattern matches AND hasattr(module, attrname)
-        pm = prog.parents(sel)
-        reg_loops = [n for s in auto_branch for n in ast.walk(s) if isinstance(n, ast.For) and "FORMAT_MODULES" in src_of(n.iter)]
-        if len(reg_loops) != 1:
-            ctx.violate("R1", "automatic selection is not a single loop over the registry", sel, d, construct="registry loop")
-        else:
-            lp = reg_loops[0]
-            if not (isinstance(lp.iter, ast.Call) and isinstance(lp.iter.func, ast.Attribute) and lp.iter.func.attr in ("values", "items") and src_of(lp.iter.func.value) == "FORMAT_MODULES" and not lp.iter.args):
-                ctx.violate("R1", f"the registry is iterated as `{src_of(lp.iter)}` (not in registry order)", sel, lp)
-            exits = [n for s in lp.body for n in ast.walk(s) if isinstance(n, (ast.Return, ast.Break))]
-            if not exits:
-                ctx.violate("R1", "the registry loop never selects a module", sel, lp, construct="registry loop exits")
-            for r in exits:
-                cur, conds = r, []
-                while id(cur) in pm and pm[id(cur)] is not lp:
-                    par = pm[id(cur)]
-                    if isinstance(par, ast.If) and any(cur is s for s in par.body):
-                        conds.append(par.test)
-                    elif isinstance(par, ast.If):
-                        conds.append(ast.UnaryOp(op=ast.Not(), operand=par.test))
-                    cur = par
-                has_match = any(any(cs.node is n for n in ast.walk(c)) for c in conds for cs in fn_calls if not isinstance(c, ast.UnaryOp))
-                has_attr = any(_hasattr_call(n, pattr) for c in conds if not isinstance(c, ast.UnaryOp) for n in ast.walk(c))
-                both_and = all(not (isinstance(c, ast.BoolOp) and isinstance(c.op, ast.Or)) for c in conds)
-                if has_match and has_attr and both_and:
-                    ctx.ok("R1", "the search stops at a module only if a pattern matches AND it supports the operation", f"{sel.module.relpath}:{r.lineno}")
-                else:
-                    ctx.violate("R1", "the registry search stops at a module without requiring both a pattern match and support for the operation (a later matching format that supports it is never tried)", sel, r)
-        # explicit branch: FORMAT_MODULES[fmt] only after hasattr check
-        exp_branch = d.orelse if isinstance(d.test.ops[0], ast.Is) else d.body
-        exp_stmts = exp_branch if exp_branch else [s for s in sel.body if s.lineno > d.lineno]
-        exp_rets = [n for s in exp_stmts for n in ast.walk(s) if isinstance(n, ast.Return)]
-        for r in exp_rets:
-            guard = [st for st in walk_stmts(exp_stmts) if isinstance(st, ast.If) and any(_hasattr_call(n, pattr) for n in ast.walk(st.test)) and st.body and isinstance(st.body[-1], ast.Raise)]
-            if guard and all(cfg.dominates(g, r) for g in guard):
-                ctx.ok("R1", "an explicit format is returned only after the operation-support check", f"{sel.module.relpath}:{r.lineno}")
-            else:
-                ctx.violate("R1", "an explicit format is returned without checking that it supports the operation", sel, r)
-    raises = [s for s in walk_stmts(sel.body) if isinstance(s, ast.Raise)]
-    if len(raises) >= 3 and all(raises_class(r) == "FileFormatError" for r in raises):
-        ctx.ok("R1", f"all {len(raises)} failure exits raise FileFormatError", sel.where)
-    else:
-        ctx.violate("R1", f"failure exits of the selection routine: {[raises_class(r) for r in raises]} (expected >= 3 FileFormatError)", sel, sel.node, construct="failure exits")
-    last = sel.body[-1]
-    if not isinstance(last, (ast.Raise, ast.Return)):
-        ctx.violate("R1", "the selection routine can fall off its end (returns None instead of raising)", sel, last)
+    # the routine's decision table is evaluated below (check_selection_semantics); only its effect discipline and its
+    # place in the API functions are decided structurally here
     allowed_ext = {"os.path.basename", "os.path.normcase", "fnmatch.fnmatch", "fnmatch.fnmatchcase", "builtins.hasattr", "builtins.any", "builtins.all", "builtins.isinstance", "builtins.str", "builtins.len", "builtins.sorted"}
     for selector in (sel, prog.func("iodata.api._select_input_module")):
         bad = [cs for cs in selector.calls if (cs.external and cs.external not in allowed_ext) or (cs.callees and cs.cls is None)]
@@ -267,6 +192,11 @@ def run(ctx):
             ctx.violate("R2", f"{short}.PATTERNS is not a list of strings", relpath=m.relpath, function=f"{m.name}.PATTERNS", construct=repr(v)[:80])
             continue
         pats[short] = list(v)
+    # the selection routine itself, evaluated with the registry modelled from these PATTERNS and the modules' entry points
+    if len(pats) == len(fm):
+        from .c17_semantics import check_selection_semantics
+
+        check_selection_semantics(ctx, "R1", pats)
     order = list(fm)
     npairs = 0
     for i, a in enumerate(order):
